@@ -14,8 +14,9 @@ PySlice(start, stop, step, n) ==
              ELSE IF start[1] < 0 THEN Max2(start[1] + n, lo) ELSE Min2(start[1], hi)
         e == IF stop = <<>> THEN (IF st > 0 THEN hi ELSE lo)
              ELSE IF stop[1] < 0 THEN Max2(stop[1] + n, lo) ELSE Min2(stop[1], hi)
-        len == IF st > 0 THEN (IF e > s THEN (e - s + st - 1) \div st ELSE 0)
-               ELSE (IF s > e THEN (s - e - st - 1) \div (-st) ELSE 0)
+        \* ceil((e - s) / st) written so that no intermediate value exceeds the extent (TLC integers are 32-bit, extents go to 2^31 - 1)
+        len == IF st > 0 THEN (IF e > s THEN (e - s - 1) \div st + 1 ELSE 0)
+               ELSE (IF s > e THEN (s - e - 1) \div (-st) + 1 ELSE 0)
     IN [start |-> s, stop |-> e, step |-> st, len |-> len]
 
 IsInt(p) == p.k = "i"
@@ -37,6 +38,14 @@ SliceShape(shape, parts) ==
     LET ps == ExpandParts(parts, Len(shape))
         kept == SelectSeq(Range0(Len(ps)), LAMBDA j : ~IsInt(ps[j + 1]))
     IN [q \in 1..Len(kept) |-> LET j == kept[q] + 1 IN PySlice(ps[j].start, ps[j].stop, ps[j].step, shape[j]).len]
+\* index level: the source index addressed by result index i (0-based, one entry per kept axis)
+SliceSrcIndex(shape, parts, i) ==
+    LET d == Len(shape)
+        ps == ExpandParts(parts, d)
+        kept == SelectSeq(Range0(d), LAMBDA j : ~IsInt(ps[j + 1]))
+        pos == [j \in 1..d |-> Cardinality({q \in 1..Len(kept) : kept[q] + 1 <= j})]
+    IN [j \in 1..d |-> IF IsInt(ps[j]) THEN (IF ps[j].i < 0 THEN ps[j].i + shape[j] ELSE ps[j].i)
+                        ELSE LET py == PySlice(ps[j].start, ps[j].stop, ps[j].step, shape[j]) IN py.start + i[pos[j]] * py.step]
 SliceView(a, parts) ==
     IF ~SpecOk(a.shape, parts) THEN Nothing
     ELSE LET d == Len(a.shape)
